@@ -100,12 +100,17 @@ def write_coqproject():
             raise RuntimeError(out)
 
 
+FILE_TIMEOUT = int(os.environ.get('VERIF_COQC_TIMEOUT', '900'))
+
+
 def build(targets=None, timeout=3000):
     """make the given .vo targets (relative to coq/), or everything.  returns (rc, output)"""
     with Lock('coq'):
         write_coqproject()
         tg = ' '.join(targets) if targets else ''
-        return sh('timeout %d make -f Makefile.coq -j%d %s 2>&1' % (timeout, NPROC, tg),
+        # every file gets its own time limit: a change of the code can make a proof script diverge (seen: 20 min
+        # and 9 GB on a symbolic execution with 3^5 paths); that must end as "proof no longer checks", quickly
+        return sh('timeout %d make -f Makefile.coq -j%d COQC="timeout %d coqc" %s 2>&1' % (timeout, NPROC, FILE_TIMEOUT, tg),
                   cwd=COQ, timeout=timeout + 60)
 
 
@@ -317,7 +322,7 @@ if __name__ == '__main__':
         NPROC = min(NPROC, 8)
         with Lock('coq'):
             write_coqproject()
-            rc, out = sh('timeout 3000 make -k -f Makefile.coq -j%d 2>&1' % NPROC, cwd=COQ, timeout=3100)
+            rc, out = sh('timeout 3000 make -k -f Makefile.coq -j%d COQC="timeout %d coqc" 2>&1' % (NPROC, FILE_TIMEOUT), cwd=COQ, timeout=3100)
         if rc != 0:
             print('SETUP WARNING: some Coq files did not build (their checks will report it):')
             print('\n'.join(l for l in out.split('\n') if 'Error' in l or l.startswith('File '))[-3000:])
